@@ -817,6 +817,19 @@ func (base *Type) mixin(derived *Type) {
 
 	if derived.enums == nil {
 		derived.enums = base.enums
+	} else {
+		// a restricted enumeration keeps the values assigned in the base type
+		for _, e := range derived.enums {
+			if e.valSet {
+				continue
+			}
+			for _, b := range base.enums {
+				if b.ident == e.ident {
+					e.val, e.valSet = b.val, b.valSet
+					break
+				}
+			}
+		}
 	}
 	if len(derived.base) == 0 {
 		derived.base = base.base
@@ -1210,6 +1223,7 @@ type Enum struct {
 	desc       string
 	ref        string
 	val        int
+	valSet     bool // value stated explicitly or already assigned (0 is a legal value)
 	ifs        []*IfFeature
 	extensions []*Extension
 }
